@@ -1,4 +1,5 @@
 import PGV.Driver.Common
+import PGV.Model.TimeParse
 import PGV.Driver.C14
 import PGV.Driver.C09
 import PGV.Driver.Walk
@@ -26,6 +27,13 @@ def dispatch (line : String) : String :=
       | "explain-c" | "explain-raw" => C15.handle op args impl
       | "dump" => C20.handle op args impl
       | "inject" => PGV.Driver.Inject.handle op args impl
+      | "timeparse" => (match args.map asBytes?, impl with
+          -- the transcription of time.Parse + Format back, against the standard library itself
+          | [some layout, some value], [Sexp.atom i] =>
+            (match PGV.Model.TimeParse.parseStrict layout value with
+             | none => some { model := Sexp.atom "none", agree := true, spec := none, scope := "out:layout-element" }
+             | some b => some { model := Sexp.atom (if b then "t" else "f"), agree := (if b then "t" else "f") == i, spec := none })
+          | _, _ => none)
       | "same" => (match args, impl with
           | [a], [c] => some { model := a, agree := a == c, spec := some (a == c) }
           | _, _ => none)
